@@ -9,7 +9,19 @@ import impl
 import metam
 import popgen
 
-PRELUDE = "From GettsimModel Require Import Engine Dag.\nFrom GettsimGen Require Import GenDag GenConfig.\n"
+PRELUDE = "From GettsimModel Require Import Engine Dag TablePerm.\nFrom GettsimGen Require Import GenRules GenDag GenConfig.\n"
+
+
+def obligations():
+    return [dict(
+        name="c01_graph_ready_for_permutation_theorem",
+        stmt="forallb (fun od => let S := filter (fun n => match d_kind n with KGrouping => false | _ => negb (String.eqb (d_name n) \"geburtsdatum\") end) (subgraph (snd od) default_targets) in "
+             "forallb (perm_ready_b all_fundefs) S && forallb (fun n => negb (String.eqb (d_name n) \"p_id\")) S) "
+             "(filter (fun od => Z.leb 735599 (fst od)) dags) = true",
+        proof="vm_cast_no_check (@eq_refl bool true).",
+        what="premises of C01_engine_commutes_with_row_permutations (TablePerm.run_perm_b) on every dumped graph >= 2015: every node of the default "
+             "targets' graph other than the six id builders is a rule with a declared result dtype, a unit conversion, a group reduction, a join, "
+             "or a sum by person pointer reading p_id as its key column; no node is named p_id")]
 
 
 def id_consumers_ok(d, nodes):
@@ -31,6 +43,12 @@ def run(ctx, res):
     import numpy as np
     import pandas as pd
 
+    import coqrun
+    res.obligations += coqrun.prove("C01", PRELUDE + "Open Scope Z_scope.\n", obligations(), shards=1, timeout=1500)
+    for ob in res.obligations:
+        if not ob["ok"] and ob["name"].startswith("c01_"):
+            res.add_violation(f"obligation:{ob['name']}", f"obligation {ob['name']} no longer checks: {ob['err'][-300:]}",
+                              dict(kind="obligation", obligation=ob["name"], err=ob["err"]), False)
     rnd = ctx.rng("c01")
     ds = metam.dag_dates()
     dates = [impl.ordinal(x) for x in (["2024-01-01", "2019-01-01", "2015-01-01"] if ctx.tier == "quick" else
